@@ -578,4 +578,162 @@ theorem leafGood_pfx (F : FloatLib) (a p : Str) (h : NFLeaf F (.pfx a p) = true)
     exact (esc_front p _ hp hk (termStop_star rest)).2.2
   · simp only [visitValue, visitPrefix, unescape_attr a ha, dropLast_append_singleton, unescape_luceneEscape]
 
+
+/-! ### comparisons -/
+
+theorem ItemEnd.numStop {rest : Str} (h : ItemEnd rest) : numStop rest = true := by
+  rcases h with h | ⟨r, h⟩ | ⟨r, h⟩ | ⟨r, h⟩ <;> subst h <;> rfl
+
+theorem operator_asLucene (op : Cmp) (t : Str) (h : ∀ r, t ≠ '=' :: r) :
+    operator (op.asLucene ++ t) = some (op, t) := by
+  cases op with
+  | gte => simp [Cmp.asLucene, operator]
+  | lte => simp [Cmp.asLucene, operator]
+  | gt =>
+    cases t with
+    | nil => simp [Cmp.asLucene, operator]
+    | cons d r =>
+      have : d ≠ '=' := by intro e; subst e; exact h r rfl
+      simp [Cmp.asLucene, operator, this]
+  | lt =>
+    cases t with
+    | nil => simp [Cmp.asLucene, operator]
+    | cons d r =>
+      have : d ≠ '=' := by intro e; subst e; exact h r rfl
+      simp [Cmp.asLucene, operator, this]
+
+/-- text starting with a comparison operator: only the `comparison` alternative applies, and nothing
+    comes before the clause -/
+theorem cmp_front (op : Cmp) (x : Str) :
+    starValue (op.asLucene ++ x) = none ∧ phraseValue (op.asLucene ++ x) = none ∧
+    prefixValue (op.asLucene ++ x) = none ∧ matchall (op.asLucene ++ x) = none ∧
+    field (op.asLucene ++ x) = none ∧ multiterm (op.asLucene ++ x) = none ∧
+    modifiers (op.asLucene ++ x) = none ∧ skipWs (op.asLucene ++ x) = op.asLucene ++ x := by
+  cases op <;> exact ⟨rfl, rfl, rfl, rfl, rfl, rfl, rfl, rfl⟩
+
+theorem value_cmp (op : Cmp) (x : Str) (pv : PValue) (rest : Str)
+    (hc : comparison (op.asLucene ++ x) = some (pv, rest)) : value (op.asLucene ++ x) = some (pv, rest) := by
+  obtain ⟨h1, h2, h3, _⟩ := cmp_front op x
+  simp only [value, h1, h2, h3, alt_none, hc, alt_some]
+
+theorem digits_head (c : Char) (r : Str) (h : isAsciiDigit c = false) : (digits (c :: r)).1 = [] := by
+  rw [digits_cons, h]; rfl
+
+theorem numUnsigned_none_of (s : Str) (h : (digits s).1 = []) : numUnsigned s = none := by
+  simp [numUnsigned, h]
+
+theorem escape_head_nondigit (s rest : Str) (hr : numStop rest = true)
+    (h : ∀ d r, s = d :: r → isAsciiDigit d = false) : (digits (luceneEscape s ++ rest)).1 = [] := by
+  cases s with
+  | nil => simp [luceneEscape, digits_stop rest hr]
+  | cons d r =>
+    by_cases hs : isLuceneSpecial d = true
+    · simp only [luceneEscape, hs, if_true, List.cons_append]
+      exact digits_head _ _ (by decide)
+    · simp only [luceneEscape, hs, Bool.false_eq_true, if_false, List.cons_append]
+      exact digits_head _ _ (h d r rfl)
+
+/-- a string operand that does not start like a number is not read as `NUMERIC_TERM` -/
+theorem numericTerm_none_esc (s rest : Str) (hne : s ≠ []) (hn : numStart s = false) (hr : numStop rest = true) :
+    numericTerm (luceneEscape s ++ rest) = none := by
+  have : numValue (luceneEscape s ++ rest) = none := by
+    cases s with
+    | nil => exact absurd rfl hne
+    | cons c s' =>
+      unfold numValue
+      by_cases hs : isLuceneSpecial c = true
+      · simp only [luceneEscape, hs, if_true, List.cons_append]
+        by_cases hm : c = '-'
+        · subst hm
+          have hsg : numSign ('\\' :: '-' :: (luceneEscape s' ++ rest)) = (['\\', '-'], luceneEscape s' ++ rest) := by
+            simp [numSign]
+          rw [hsg]
+          have hd : (digits (luceneEscape s' ++ rest)).1 = [] := by
+            apply escape_head_nondigit s' rest hr
+            intro d r e
+            subst e
+            simpa [numStart] using hn
+          simp [numUnsigned_none_of _ hd]
+        · have hsg : numSign ('\\' :: c :: (luceneEscape s' ++ rest)) = ([], '\\' :: c :: (luceneEscape s' ++ rest)) := by
+            simp [numSign, hm]
+          rw [hsg]
+          simp [numUnsigned_none_of _ (digits_head '\\' _ (by decide))]
+      · have hm : c ≠ '-' := by intro e; subst e; exact hs (by decide)
+        have hb : c ≠ '\\' := by intro e; subst e; exact hs (by decide)
+        simp only [luceneEscape, hs, Bool.false_eq_true, if_false, List.cons_append]
+        have hsg : numSign (c :: (luceneEscape s' ++ rest)) = ([], c :: (luceneEscape s' ++ rest)) := by
+          simp [numSign, hm, hb]
+        rw [hsg]
+        have hd : isAsciiDigit c = false := by simpa [numStart, hm] using hn
+        simp [numUnsigned_none_of _ (digits_head c _ hd)]
+  simp [numericTerm, this]
+
+theorem escape_head_ne_eq (s rest : Str) (hne : s ≠ []) : ∀ r, luceneEscape s ++ rest ≠ '=' :: r := by
+  intro r e
+  cases s with
+  | nil => exact absurd rfl hne
+  | cons c s' =>
+    by_cases hs : isLuceneSpecial c = true
+    · simp [luceneEscape, hs] at e
+    · simp only [luceneEscape, hs, Bool.false_eq_true, if_false, List.cons_append, List.cons.injEq] at e
+      rw [e.1] at hs; exact hs (by decide)
+
+theorem numeric_head_ne_eq (p rest : Str) (h : numericTerm p = some (p, [])) : ∀ r, p ++ rest ≠ '=' :: r := by
+  intro r e
+  cases p with
+  | nil => simp [numericTerm, numValue, numSign, numUnsigned, digits] at h
+  | cons c p' =>
+    simp only [List.cons_append, List.cons.injEq] at e
+    rw [e.1] at h
+    have : numericTerm ('=' :: p') = none := rfl
+    rw [this] at h; cases h
+
+theorem leafGood_comparison (F : FloatLib) (a : Str) (op : Cmp) (cv : CV)
+    (h : NFLeaf F (.comparison a op cv) = true) : LeafGood F (.comparison a op cv) := by
+  simp only [NFLeaf, Bool.and_eq_true] at h
+  obtain ⟨ha, hcv⟩ := h
+  have hL : (Leaf.comparison a op cv).toLucene F = attrPrefix a ++ (op.asLucene ++ cv.toLucene F) := by
+    show attrPrefix a ++ op.asLucene ++ cv.toLucene F = _
+    simp only [List.append_assoc]
+  have hne : op.asLucene ++ cv.toLucene F ≠ [] := by cases op <;> simp [Cmp.asLucene]
+  have hfront := fun x => cmp_front op (cv.toLucene F ++ x)
+  -- the value token and what the visitor makes of it
+  have key : ∃ pv, (∀ rest, ItemEnd rest → comparison (op.asLucene ++ (cv.toLucene F ++ rest)) = some (pv, rest)) ∧
+      visitValue F a pv = .ok (.leaf (.comparison a op cv)) := by
+    cases cv with
+    | unbounded => simp [cmpValueOK] at hcv
+    | str s =>
+      simp only [cmpValueOK, Bool.and_eq_true, Bool.not_eq_true'] at hcv
+      obtain ⟨⟨hs, hk⟩, hnum⟩ := hcv
+      obtain ⟨hsne, _, _⟩ := escTermOK_parts hs
+      refine ⟨.cmp op false (luceneEscape s), ?_, ?_⟩
+      · intro rest hr
+        simp only [CV.toLucene, comparison,
+          operator_asLucene op _ (escape_head_ne_eq s rest hsne),
+          numericTerm_none_esc s rest hsne hnum hr.numStop, term_esc s rest hs hk hr.termStop]
+      · simp [visitValue, unescape_attr a ha, unescape_luceneEscape]
+    | int i =>
+      simp only [cmpValueOK, numTextOK, Bool.and_eq_true, decide_eq_true_eq] at hcv
+      refine ⟨.cmp op true ((CV.int i).toLucene F), ?_, ?_⟩
+      · intro rest hr
+        simp only [comparison, operator_asLucene op _ (numeric_head_ne_eq _ rest hcv.1),
+          numericTerm_append _ rest hr.numStop hcv.1]
+      · simp [visitValue, unescape_attr a ha, hcv.2]
+    | float b =>
+      simp only [cmpValueOK, numTextOK, Bool.and_eq_true, decide_eq_true_eq] at hcv
+      refine ⟨.cmp op true ((CV.float b).toLucene F), ?_, ?_⟩
+      · intro rest hr
+        simp only [comparison, operator_asLucene op _ (numeric_head_ne_eq _ rest hcv.1),
+          numericTerm_append _ rest hr.numStop hcv.1]
+      · simp [visitValue, unescape_attr a ha, hcv.2]
+  obtain ⟨pv, hcmp, hvis⟩ := key
+  refine leafGood_attr F _ a (op.asLucene ++ cv.toLucene F) pv hL ha ?_ ?_ hne ?_ ?_ hvis
+  · intro rest hr
+    rw [List.append_assoc]
+    exact value_cmp op _ pv rest (hcmp rest hr)
+  · intro x; rw [List.append_assoc]; exact (hfront x).2.2.2.2.2.2.2
+  · intro _ rest _; rw [List.append_assoc]
+    exact ⟨(hfront rest).2.2.2.1, (hfront rest).2.2.2.2.1, (hfront rest).2.2.2.2.2.1⟩
+  · intro _ rest _; rw [List.append_assoc]; exact (hfront rest).2.2.2.2.2.2.1
+
 end Search
